@@ -52,6 +52,9 @@ TABLE = {
     "megayear": (31557600.0e6, _d(s=1), EXACT),
     # temperature
     "kelvin": (1.0, _d(K=1), EXACT),
+    "millikelvin": (1.0e-3, _d(K=1), 1e-15),
+    "electron_volt": (1.602176634e-12, _d(cm=2, g=1, s=-2), 1e-9),  # exact by the 2019 SI
+    "kiloelectron_volt": (1.602176634e-9, _d(cm=2, g=1, s=-2), 1e-9),
     # mechanics
     "dyne": (1.0, _d(cm=1, g=1, s=-2), EXACT),
     "newton": (1.0e5, _d(cm=1, g=1, s=-2), EXACT),
